@@ -280,24 +280,38 @@ class Parser:
             number = token
             if self.current().kind == TokenKind.RBRACE:
                 self.pos += 1
-                return RepeatExact(expr, int(number.value))
+                return RepeatExact(expr, self.number(number))
 
             self.eat(TokenKind.COMMA)
 
             if self.current().kind == TokenKind.RBRACE:
                 self.pos += 1
-                return RepeatMin(expr, int(number.value))
+                return RepeatMin(expr, self.number(number))
 
             stop = self.eat(TokenKind.NUMBER)
             self.eat(TokenKind.RBRACE)
-            return RepeatMinMax(expr, int(number.value), int(stop.value))
+            return RepeatMinMax(expr, self.number(number), self.number(stop))
 
         if kind == TokenKind.COMMA:
             number = self.eat(TokenKind.NUMBER)
             self.eat(TokenKind.RBRACE)
-            return RepeatMax(expr, int(number.value))
+            return RepeatMax(expr, self.number(number))
 
         raise PestGrammarSyntaxError("expected a number or a comma", token=token)
+
+    def number(self, token: Token, *, signed: bool = False) -> int:
+        """Return the value of a number token, which must fit in 32 bits.
+
+        As in pest, repetition counts are `u32` and `PEEK` indices are `i32`.
+        """
+        digits = token.value.lstrip("+-").lstrip("0")
+        if len(digits) > 10:  # noqa: PLR2004
+            raise PestGrammarSyntaxError("number out of range", token=token)
+        value = -int(digits or "0") if token.value.startswith("-") else int(digits or "0")
+        limit = 2**31 if signed else 2**32
+        if not -limit <= value < limit:
+            raise PestGrammarSyntaxError("number out of range", token=token)
+        return value
 
     def parse_peek_expression(self, tag: str | None) -> Expression:
         if self.current().kind != TokenKind.LBRACKET:
@@ -305,14 +319,14 @@ class Parser:
 
         self.eat(TokenKind.LBRACKET)
         if self.current().kind == TokenKind.INTEGER:
-            start: str | None = self.next().value
+            start: str | None = str(self.number(self.next(), signed=True))
         else:
             start = None
 
         self.eat(TokenKind.RANGE_OP)
 
         if self.current().kind == TokenKind.INTEGER:
-            stop: str | None = self.next().value
+            stop: str | None = str(self.number(self.next(), signed=True))
         else:
             stop = None
 
